@@ -118,6 +118,9 @@ def apply(pose, op, be):
     elif k == "slice_step": pose = Pose(pose.header, body.slice_step(op["by"]))
     elif k == "zero_filled": pose = Pose(pose.header, body.zero_filled())
     elif k == "copy": pose = pose.copy()
+    elif k == "normalize_hands_3d":
+        from pose_format.utils.generic import normalize_hands_3d
+        normalize_hands_3d(pose)                                   # in place: appends the two normalised hands to the body (the header is left as it is)
     elif k == "rejoin":
         # the body's coordinates re-assembled with numpy.ma.concatenate and assigned back — what `utils.generic.normalize_hands_3d` does with its normalised hands
         # (and what user code joining clips does): the same values and mask, but an array that did not go through the constructor
